@@ -423,6 +423,9 @@ class Model(object):
       vals = [self.value(a, r, at) for a in node["a"]]
       v = vals[0]
       for b in vals[1:]:
+        if v == 0 and b > 0:
+          v = mpf(0)          # 0 ** positive is 0 (a base that is switched off: as.zero, beyond its last range)
+          continue
         if v <= 0:
           raise RefDomainError("pow base <= 0")
         v = v ** b
@@ -595,6 +598,9 @@ class Model(object):
       vals = [(self.value(a, r, at), self.mag(a, r, at)) for a in node["a"]]
       v, M = vals[0]
       for b, Mb in vals[1:]:
+        if v == 0 and b > 0:
+          M = mpf(0)          # exactly zero, nothing is rounded
+          continue
         M = self._pow_mag(v, M, b, Mb)
         v = v ** b
       return M
